@@ -138,6 +138,48 @@ func makeView(ws *WalkScn, blocks []*commonmark.RootBlock) *walkView {
 			}
 			return n.Child(j)
 		}
+	case "virtual-mixed":
+		// a zero-Node root over a PRNG-chosen selection of ARBITRARY nodes of
+		// the document (blocks and inlines from any depth, e.g. "all headings and
+		// links"), default children below them
+		v.root = zero
+		var all []commonmark.Node
+		var collect func(n commonmark.Node)
+		collect = func(n commonmark.Node) {
+			all = append(all, n)
+			for i, c := 0, n.ChildCount(); i < c; i++ {
+				collect(n.Child(i))
+			}
+		}
+		for _, b := range blocks {
+			collect(b.AsNode())
+		}
+		var sel []commonmark.Node
+		for i, n := range all {
+			if mix64(ws.HideSeed^uint64(i)*0x9e3779b97f4a7c15)%5 < 2 {
+				sel = append(sel, n)
+			}
+		}
+		if ws.HideSeed&1 == 1 {
+			for i, j := 0, len(sel)-1; i < j; i, j = i+1, j-1 {
+				sel[i], sel[j] = sel[j], sel[i]
+			}
+		}
+		if len(sel) > 64 {
+			sel = sel[:64]
+		}
+		v.childCount = func(n commonmark.Node) int {
+			if virtual(n) {
+				return len(sel)
+			}
+			return n.ChildCount()
+		}
+		v.child = func(n commonmark.Node, i int) commonmark.Node {
+			if virtual(n) {
+				return sel[i]
+			}
+			return n.Child(i)
+		}
 	case "count-only":
 		// only ChildCount is supplied: selected nodes are presented as leaves;
 		// Child stays the default accessor
